@@ -157,22 +157,24 @@ def randoms(tier, rng):
     for c in range(4 if tier == "quick" else 1 if tier == "cross" else 12):
         seg = []
         nk = rng.randint(2, 7)
-        for k in rng.sample(range(1, 9), nk):
+        have = set(rng.sample(range(1, 9), nk))
+        for k in sorted(have, key=lambda _: rng.random()):
             seg.append(dict(op="put", a=k, b=1))
         for rnd in range(4 if tier == "quick" else 2 if tier == "cross" else 8):
             # a complete or partial walk leaves stamps behind
             if rng.random() < 0.6:
                 seg.append(dict(op="walk", a=0, b=0))
             else:
-                j = rng.randint(1, nk)
+                j = rng.randint(1, len(have))
                 seg += [dict(op="next", a=0, b=0)] * j + [dict(op="abandon", a=0, b=0)]
             n = rng.choice([252, 253, 254, 255, 256, 257, 508, 509, 510, 511])
             seg += [dict(op="next", a=0, b=0), dict(op="abandon", a=0, b=0)] * n
             seg.append(dict(op="walk", a=0, b=0))
             seg.append(dict(op="nearest", a=rng.randint(0, 9), b=1))
-            seg += [dict(op="next", a=0, b=0)] * (nk + 1)
+            # the continuation is run to its end (or given up explicitly): the table is never modified under a live cursor
+            seg += [dict(op="next", a=0, b=0)] * (len(have) + 1) + [dict(op="abandon", a=0, b=0)]
             if rng.random() < 0.5:
-                k = rng.randint(1, 8); seg.append(dict(op="rm", a=k, b=0)); seg.append(dict(op="put", a=k, b=2))
+                k = rng.randint(1, 8); seg.append(dict(op="rm", a=k, b=0)); seg.append(dict(op="put", a=k, b=2)); have.add(k)
         cyc.append(seg)
     out.append(dict(tag="cycle", segs=cyc, trace_consts=TRACE_CONSTS, replays=_replays([rng.randint(0, 3)])))
     return out
